@@ -13,6 +13,9 @@
 //! canonical reply that the model must reproduce.
 mod common;
 mod c20;
+mod c03;
+mod parse;
+mod refjson;
 
 use common::Out;
 
@@ -23,6 +26,8 @@ pub fn exec_line(line: &str, out: &mut Out) {
     out.cur = line.to_string();
     let r = std::panic::catch_unwind(std::panic::AssertUnwindSafe(|| match head {
         "kind" => c20::exec(rest, out),
+        "parse" => parse::exec(rest, out),
+        "c03" => c03::exec(rest, out),
         _ => ("bad-op".to_string(), false),
     }));
     match r {
@@ -35,7 +40,16 @@ pub fn exec_line(line: &str, out: &mut Out) {
 }
 
 fn main() {
+    let h = std::thread::Builder::new().stack_size(1 << 30).spawn(real_main).unwrap();
+    let _ = h.join();
+}
+
+fn real_main() {
     let args: Vec<String> = std::env::args().collect();
+    if args.len() == 5 && args[1] == "deepchild" {
+        println!("{}", c03::deep_child(&args[2], args[3].parse().unwrap_or(0), args[4] == "1"));
+        std::process::exit(0);
+    }
     if args.len() < 6 {
         eprintln!("usage: jsv run|exec <property> <quick|thorough> <seed> <workdir> [files…]");
         std::process::exit(2);
@@ -61,6 +75,12 @@ fn main() {
     if mode == "run" {
         match prop {
             "C20" => c20::gen(&mut out, thorough),
+            "C03" => c03::gen(&mut out, thorough),
+            "C01" => parse::gen_streams(&mut out, thorough, &["ff"], "C01"),
+            "C02" => parse::gen_streams(&mut out, thorough, &["ff"], "C02"),
+            "C05" => parse::gen_streams(&mut out, thorough, &["ff"], "C05"),
+            "C07" => parse::gen_streams(&mut out, thorough, &["ff"], "C07"),
+            "C12" => parse::gen_streams(&mut out, thorough, &parse::ALL_OPTS, "C12"),
             _ => {
                 eprintln!("unknown property {}", prop);
                 std::process::exit(2);
